@@ -46,7 +46,8 @@ def make_cases(tr):
         if len(text) > 950:
             L = L[:40] + ([R] if contains else [])
             text = ",".join(str(x) for x in L)
-        cases.append(dict(id=i + 1, R=R, E=E, L=L, text=text, contains=R in L))
+        # the value errno happens to hold when the caller reaches exec (left over from the caller's own earlier calls)
+        cases.append(dict(id=i + 1, R=R, E=E, L=L, text=text, contains=R in L, errno=rng.choice([0, 0, 34, 34, 22, 4, 75, 2])))
     return cases
 
 
@@ -61,6 +62,7 @@ def script_fn(c, B, s):
         s.conf(("[snoopy]\nmessage_format = \"P%d-%d\"\noutput = devnull\nfilter_chain=\"%s\"\n" % (c["id"], j, chain)).encode())
         s.call(c["id"] * 10 + 5 + j, "execve", b"/bin/u", [b"u"], [b"E=1"], -1, 2)
     s.raw("uid %d %d %d" % (c["R"], c["E"], c["R"]))
+    s.raw("preerrno %d" % c["errno"])
     for j, f in enumerate(FILTERS):
         chain = f if f == "only_root" else "%s:%s" % (f, c["text"])
         conf = ("[snoopy]\nmessage_format = \"M%d-%d\"\noutput = file:%s\nfilter_chain=\"%s\"\n" % (c["id"], j, B.logf, chain)).encode()
@@ -70,7 +72,7 @@ def script_fn(c, B, s):
 
 
 def check_fn(c, evs, B):
-    wit = dict(real_uid=c["R"], effective_uid=c["E"], list=c["text"])
+    wit = dict(real_uid=c["R"], effective_uid=c["E"], list=c["text"], errno_at_entry=c["errno"])
     ch = events_of(evs, "CHILD")
     if ch and ch[0]["signal"]:
         B.F.violation("C14:caller-killed:sig%d" % ch[0]["signal"], "caller died (uid %d, list %s)" % (c["R"], c["text"][:80]), wit)
@@ -118,7 +120,8 @@ def make_long(tr):
         contains = rng.random() < 0.5
         if contains:
             L.insert(rng.choice([0, len(L), rng.randrange(0, len(L) + 1)]), R)
-        out.append(dict(id=i + 1, R=R, E=rng.choice([u for u in UIDS if u != R]), text=",".join(str(x) for x in L), contains=contains))
+        out.append(dict(id=i + 1, R=R, E=rng.choice([u for u in UIDS if u != R]), text=",".join(str(x) for x in L), contains=contains,
+                        errno=rng.choice([0, 34, 22, 75])))
     return out
 
 
@@ -126,6 +129,7 @@ def long_script(c, B, s):
     from vlib.drive import Script
     s.fork(c["id"])
     s.raw("uid %d %d %d" % (c["R"], c["E"], c["R"]))
+    s.raw("preerrno %d" % c["errno"])
     s.raw("vinit 0 %s %s %s" % (Script.elem(b"/bin/x"), Script.vec([b"x"]), Script.vec([b"E=1"])))
     for j, f in enumerate(FILTERS):
         s.raw("vfilter %d %s %s" % (c["id"] * 10 + j, Script.elem(f.encode()), Script.elem(c["text"].encode())))
